@@ -167,6 +167,14 @@ func (fx *FuncExec) run() {
 		}
 		fx.rets = append(fx.rets, end)
 	}
+	// Postconditions are checked per return path (smaller queries than on the
+	// merged state); the reachability canary and the assigns check use the merge.
+	var retStates []*State
+	for _, r := range fx.rets {
+		if r != nil {
+			retStates = append(retStates, r.clone())
+		}
+	}
 	final := fx.mergeStates(fx.rets)
 	if final == nil {
 		fx.notes = append(fx.notes, "no normal return path")
@@ -175,16 +183,27 @@ func (fx *FuncExec) run() {
 	co := fx.oblige(final, "canary", "end-reachable", "true", "function end is reachable", fi.Body.End())
 	co.Expect = "sat"
 	if c != nil {
-		for i, en := range c.Ensures {
-			env := fx.specEnv(final, fx.entry, fx.bodyPos(), "ensures")
-			fx.bindResults(env, final)
-			g := env.Bool(en.Expr)
+		for _, en := range c.Ensures {
 			if en.Free {
 				continue
 			}
-			lbl := en.Label
-			_ = i
-			fx.oblige(final, "ensures", lbl, g, en.Text, fi.Body.End())
+			fx.counters["ensures"]++
+			k := fx.counters["ensures"]
+			for ri, rs := range retStates {
+				env := fx.specEnv(rs, fx.entry, fx.bodyPos(), "ensures")
+				fx.bindResults(env, rs)
+				g := env.Bool(en.Expr)
+				name := fmt.Sprintf("%s/ensures#%d", fx.fi.Key, k)
+				if en.Label != "" {
+					name += "/" + en.Label
+				}
+				if len(retStates) > 1 {
+					name += fmt.Sprintf("@ret%d", ri+1)
+				}
+				o := &Obligation{Name: name, Func: fx.fi.Key, Kind: "ensures", Label: en.Label, Pos: fx.posStr(fi.Body.End()), Goal: en.Text,
+					PC: append([]string(nil), rs.pc...), Neg: g, Expect: "unsat", fx: fx}
+				fx.obls = append(fx.obls, o)
+			}
 		}
 		if c.HasAssigns {
 			fx.checkAssigns(final)
@@ -222,6 +241,10 @@ func (fx *FuncExec) compsOf(d string, pkg *types.Package) []string {
 	if c, ok := fx.reg.ghostVars[d]; ok {
 		return []string{c}
 	}
+	// a type? (pkg.Type, Type, map[..].., []..)
+	if cs := fx.compsOfType(d, pkg); cs != nil {
+		return cs
+	}
 	// Struct.field
 	if i := strings.LastIndex(d, "."); i > 0 && !strings.ContainsAny(d, "[]*") {
 		sname, f := d[:i], d[i+1:]
@@ -256,6 +279,32 @@ func (fx *FuncExec) compsOf(d string, pkg *types.Package) []string {
 		return cs
 	}
 	panic(specError{"assigns: cannot resolve " + d})
+}
+
+func (fx *FuncExec) compsOfType(d string, pkg *types.Package) (out []string) {
+	defer func() {
+		if r := recover(); r != nil {
+			out = nil
+		}
+	}()
+	srt, t := fx.typeFromString(d, pkg)
+	if mi, ok := fx.reg.maps[srt]; ok {
+		return []string{mi.Dom, mi.Val}
+	}
+	if srt == "Slice" && t != nil {
+		return []string{fx.reg.sliceComp(sliceElemType(t))}
+	}
+	if pi, ok := fx.reg.ptrs[srt]; ok {
+		return []string{pi.Comp}
+	}
+	if si, ok := fx.reg.structs[srt]; ok {
+		var cs []string
+		for _, f := range si.Fields {
+			cs = append(cs, si.Comp[f])
+		}
+		return cs
+	}
+	return nil
 }
 
 func (fx *FuncExec) assignsComps(c *Contract, pkg *types.Package) map[string]bool {
